@@ -44,7 +44,7 @@ ASSUME = ["the isolated-surface semantics is the model's (theorems in Properties
 
 
 def run(ctx):
-    return _scene.run_property(ctx, CFG, 1500, 20000, RULE, concrete, ASSUME, post=C02.post, nontrivial=nontrivial)
+    return _scene.run_property(ctx, CFG, 3000, 20000, RULE, concrete, ASSUME, post=C02.post, nontrivial=nontrivial)
 
 
 def replay(ctx, path):
